@@ -404,7 +404,9 @@ Definition d_with (D : dirst) (rd : trd) (out : list byte) (cw cwf bytes err : N
 
 Record tsh := { sh_d0 : dirst; sh_d1 : dirst; sh_wg : N;
                 sh_closed_a : bool; sh_closed_b : bool; sh_ncl_a : N; sh_ncl_b : N;
-                sh_io_after_close : N; sh_ret : bool }.
+                sh_io_after_close : N; sh_ret : bool;
+                sh_dl_a : bool; sh_dl_b : bool }.   (* a read deadline armed by the relay on endpoint A / B; the environment is
+                                                      adversarial: the still-open peer may stay silent past ANY armed deadline *)
 
 Inductive tpc :=
 | PLoop (total : N)       (* in the `for` loop; totalWritten *)
@@ -415,10 +417,16 @@ Inductive tpc :=
 
 Section Tcp.
   Variable CopyBuf : N.   (* constants.CopyBufferSize *)
+  (* false = the code: a finished direction half-closes its destination and does nothing else to it.
+     true  = the variant that also arms a read deadline ("drain timeout") on that endpoint, which the OTHER direction is
+     still reading from *)
+  Variable DrainDeadline : bool.
 
   (* one iteration of the copy loop of direction D; cs / cd: source / destination already Close()d *)
-  Definition loop_iter (cs cd : bool) (total : N) (D : dirst) : tpc * dirst * N :=
-    let '(got, e, t') := if cs then ([], Some 99, d_rd D) else tread CopyBuf (d_rd D) in
+  Definition loop_iter (cs cd dl : bool) (total : N) (D : dirst) : tpc * dirst * N :=
+    let '(got, e, t') := if cs then ([], Some 99, d_rd D)
+                         else if dl then ([], Some 98, d_rd D)      (* i/o timeout: the armed deadline has passed *)
+                         else tread CopyBuf (d_rd D) in
     let upd out bytes err := d_with D t' out (d_cw D) (d_cwf D) bytes err in
     (* if nr > 0 { nw, writeErr := dst.Write(buf[:nr]) ... } *)
     let '(nw, werr, out', ioac) :=
@@ -437,7 +445,7 @@ Section Tcp.
     if negb (is_nil got) && negb (werr =? 0) then (PHalf, upd out' (d_bytes D) werr, ioac')
     else if negb (is_nil got) && negb (nw =? lenN got) then (PHalf, upd out' (d_bytes D) 4, ioac')
     else match e with
-         | Some k => (PHalf, upd out' total' (if k =? 0 then d_err D else if k =? 99 then 5 else 1), ioac')
+         | Some k => (PHalf, upd out' total' (if k =? 0 then d_err D else if k =? 99 then 5 else if k =? 98 then 8 else 1), ioac')
          | None => (PLoop total', upd out' (d_bytes D) (d_err D), ioac')
          end.
 
@@ -445,7 +453,8 @@ Section Tcp.
     {| sh_d0 := if (d =? 0)%nat then D else sh_d0 sh; sh_d1 := if (d =? 0)%nat then sh_d1 sh else D;
        sh_wg := wg; sh_closed_a := sh_closed_a sh; sh_closed_b := sh_closed_b sh;
        sh_ncl_a := sh_ncl_a sh; sh_ncl_b := sh_ncl_b sh;
-       sh_io_after_close := sh_io_after_close sh + ioac; sh_ret := sh_ret sh |}.
+       sh_io_after_close := sh_io_after_close sh + ioac; sh_ret := sh_ret sh;
+       sh_dl_a := sh_dl_a sh; sh_dl_b := sh_dl_b sh |}.
 
   (* a full Close of direction d's DESTINATION endpoint (d = 0: B, else A) *)
   Definition close_dst (d : nat) (sh : tsh) : tsh :=
@@ -454,23 +463,33 @@ Section Tcp.
        sh_closed_b := if (d =? 0)%nat then true else sh_closed_b sh;
        sh_ncl_a := if (d =? 0)%nat then sh_ncl_a sh else sh_ncl_a sh + 1;
        sh_ncl_b := if (d =? 0)%nat then sh_ncl_b sh + 1 else sh_ncl_b sh;
-       sh_io_after_close := sh_io_after_close sh; sh_ret := sh_ret sh |}.
+       sh_io_after_close := sh_io_after_close sh; sh_ret := sh_ret sh;
+       sh_dl_a := sh_dl_a sh; sh_dl_b := sh_dl_b sh |}.
+
+  (* SetReadDeadline(now + drain timeout) on direction d's destination endpoint *)
+  Definition arm_deadline (d : nat) (sh : tsh) : tsh :=
+    {| sh_d0 := sh_d0 sh; sh_d1 := sh_d1 sh; sh_wg := sh_wg sh; sh_closed_a := sh_closed_a sh; sh_closed_b := sh_closed_b sh;
+       sh_ncl_a := sh_ncl_a sh; sh_ncl_b := sh_ncl_b sh; sh_io_after_close := sh_io_after_close sh; sh_ret := sh_ret sh;
+       sh_dl_a := if (d =? 0)%nat then sh_dl_a sh else true; sh_dl_b := if (d =? 0)%nat then true else sh_dl_b sh |}.
 
   (* tryCloseWrite(dst), through whatever wraps the destination *)
-  Definition half_close_step (d : nat) (D : dirst) (sh : tsh) : tsh :=
+  Definition half_close_only (d : nat) (D : dirst) (sh : tsh) : tsh :=
     match close_write_dispatch (d_cfg D) with
     | HcFunc => set_d d sh (d_with D (d_rd D) (d_out D) (d_cw D) (d_cwf D + 1) (d_bytes D) (d_err D)) (sh_wg sh) 0
     | HcWriter => set_d d sh (d_with D (d_rd D) (d_out D) (d_cw D + 1) (d_cwf D) (d_bytes D) (d_err D)) (sh_wg sh) 0
     | HcNoop => set_d d sh D (sh_wg sh) 0
     | HcClose => close_dst d (set_d d sh D (sh_wg sh) 0)
     end.
+  Definition half_close_step (d : nat) (D : dirst) (sh : tsh) : tsh :=
+    if DrainDeadline then arm_deadline d (half_close_only d D sh) else half_close_only d D sh.
 
   Definition copier_step (d : nat) (pc : tpc) (sh : tsh) : tpc * tsh :=
     let D := if (d =? 0)%nat then sh_d0 sh else sh_d1 sh in
     let cs := if (d =? 0)%nat then sh_closed_a sh else sh_closed_b sh in
     let cd := if (d =? 0)%nat then sh_closed_b sh else sh_closed_a sh in
     match pc with
-    | PLoop total => let '(pc', D', ioac) := loop_iter cs cd total D in (pc', set_d d sh D' (sh_wg sh) ioac)
+    | PLoop total => let dl := if (d =? 0)%nat then sh_dl_a sh else sh_dl_b sh in
+                     let '(pc', D', ioac) := loop_iter cs cd dl total D in (pc', set_d d sh D' (sh_wg sh) ioac)
     | PHalf => (PWg, half_close_step d D sh)
     | PWg => (PDone, set_d d sh D (sh_wg sh - 1) 0)
     | other => (other, sh)
@@ -480,7 +499,8 @@ Section Tcp.
   Definition main_step (pc : tpc) (sh : tsh) : tpc * tsh :=
     let mk ca cb na nb r :=
       {| sh_d0 := sh_d0 sh; sh_d1 := sh_d1 sh; sh_wg := sh_wg sh; sh_closed_a := ca; sh_closed_b := cb;
-         sh_ncl_a := na; sh_ncl_b := nb; sh_io_after_close := sh_io_after_close sh; sh_ret := r |} in
+         sh_ncl_a := na; sh_ncl_b := nb; sh_io_after_close := sh_io_after_close sh; sh_ret := r;
+         sh_dl_a := sh_dl_a sh; sh_dl_b := sh_dl_b sh |} in
     match pc with
     | MWait => if sh_wg sh =? 0 then (MCloseA, sh) else (MWait, sh)
     | MCloseA => if close_reaches_endpoint (d_cfg (sh_d1 sh))
@@ -513,6 +533,6 @@ Definition dir0 (s : list byte) (cuts : list nat) (e : N) (wd : bool) (wl : opti
   dirw s cuts e wd wl ws cfg_direct.
 Definition tcp_init (D0 D1 : dirst) : st tsh (nat * tpc) :=
   ({| sh_d0 := D0; sh_d1 := D1; sh_wg := 2; sh_closed_a := false; sh_closed_b := false;
-      sh_ncl_a := 0; sh_ncl_b := 0; sh_io_after_close := 0; sh_ret := false |},
+      sh_ncl_a := 0; sh_ncl_b := 0; sh_io_after_close := 0; sh_ret := false; sh_dl_a := false; sh_dl_b := false |},
    [(0%nat, PLoop 0); (1%nat, PLoop 0); (2%nat, MWait)]).
 Close Scope N_scope.
